@@ -42,7 +42,7 @@ tainted_opaque<int*, Sbx> cbo_ptr(RS&, tainted_opaque<int*, Sbx>);
 void cbt_mixed(RS&, tainted<double, Sbx>, tainted<const char*, Sbx>);
 void cbo_mixed(RS&, tainted_opaque<double, Sbx>, tainted_opaque<const char*, Sbx>);
 
-void program(RS& sb, tainted<long, Sbx> t_long, tainted<int*, Sbx> t_ptr, tainted<Fn, Sbx> t_fn, tainted<PS, Sbx> t_ps,
+void program(RS& sb, tainted<int[4], Sbx> t_arr, tainted<long, Sbx> t_long, tainted<int*, Sbx> t_ptr, tainted<Fn, Sbx> t_fn, tainted<PS, Sbx> t_ps,
              tainted<const char*, Sbx> t_charp, tainted<double, Sbx> t_dbl)
 {
 #if FORM == 0
@@ -94,6 +94,22 @@ void program(RS& sb, tainted<long, Sbx> t_long, tainted<int*, Sbx> t_ptr, tainte
   tainted<PS, Sbx> s2 = t_ps;
 #elif FORM == 23
   tainted<PS, Sbx> s2 = from_opaque(t_ps.to_opaque());
+#elif FORM == 24
+  tainted<int[4], Sbx> a1 = t_arr;
+  tainted<int[4], Sbx> a2 = a1;
+#elif FORM == 25
+  auto o1 = t_arr.to_opaque();
+  auto o2 = o1;
+  tainted<int[4], Sbx> a2 = from_opaque(o2);
+#elif FORM == 26
+  tainted<PS, Sbx> s1 = t_ps;
+  tainted<PS, Sbx> s2 = s1;
+  s2 = s1;
+#elif FORM == 27
+  auto o1 = t_ps.to_opaque();
+  auto o2 = o1;
+  o2 = o1;
+  tainted<PS, Sbx> s2 = from_opaque(o2);
 #else
 #  error "no such form"
 #endif
